@@ -6,8 +6,10 @@ import (
 	"github.com/ipld/go-ipld-prime"
 	"github.com/ucan-wg/go-ucan/pkg/command"
 	"github.com/ucan-wg/go-ucan/pkg/policy"
+	"io"
 	"math"
 	"strings"
+	"testing/iotest"
 	"time"
 
 	"github.com/ipld/go-ipld-prime/codec/dagcbor"
@@ -41,7 +43,7 @@ func init() {
 		MinEvals:        floor(4000, 150000),
 		MinDistinct:     floor(500, 15000),
 		RequiredCells: func(string) []string {
-			cells := []string{"purity/seal-unseal/history", "purity/seal-unseal/concurrent", "dlg", "inv", "minimal", "full", "time/beyond-2^53", "time/2^53-1", "null/top-level-meta", "null/top-level-arg", "float/integral", "dec/generic", "dec/typed", "dec/reader", "codec/dagcbor", "codec/dagjson"}
+			cells := []string{"purity/seal-unseal/history", "purity/seal-unseal/concurrent", "dlg", "inv", "minimal", "full", "time/beyond-2^53", "time/2^53-1", "null/top-level-meta", "null/top-level-arg", "float/integral", "dec/generic", "dec/typed", "dec/reader", "codec/dagcbor", "codec/dagjson", "stream-of-tokens/dagcbor", "stream-of-tokens/dagjson"}
 			for _, a := range gen.Algs {
 				cells = append(cells, "alg/"+a)
 			}
@@ -420,6 +422,7 @@ func runC07(w *mon.W) {
 	}
 	c07Kept = nil
 	defer c07Recheck(w)
+	c07Streams(w)
 	r := w.Rng
 	total := w.Share(w.Pick(1200, 20000))
 	vo := gen.ValOpts{IntegralF: false, Links: true} // links (CIDs) as metadata, argument and policy values too
@@ -496,6 +499,102 @@ func runC07(w *mon.W) {
 			s.Iat = &t3
 			s.NoIat = false
 			c07One(w, s, "random")
+		}
+	}
+}
+
+// c07Streams: several tokens written one after the other onto ONE stream and read back one after
+// the other with the reader-based decoders, told not to look beyond the end of a value: each
+// call returns the next token, equal on every field, and leaves the stream at the start of the
+// following one.
+func c07Streams(w *mon.W) {
+	r := w.Rng
+	cborDec := dagcbor.DecodeOptions{AllowLinks: true, DontParseBeyondEnd: true}.Decode
+	jsonDec := dagjson.DecodeOptions{ParseLinks: true, ParseBytes: true, DontParseBeyondEnd: true}.Decode
+	for it := 0; it < w.Share(w.Pick(60, 600)); it++ {
+		n := 2 + r.IntN(4)
+		typ := []string{"dlg", "inv"}[it%2]
+		js := it%4 >= 2
+		var stream bytes.Buffer
+		var want []ref.V
+		var descs []string
+		for k := 0; k < n; k++ {
+			s := gen.RandomSpec(r, typ, gen.SpecOpts{AnyAlgPct: 20, NoBig: it%3 != 0})
+			tk, err := s.Build()
+			if err != nil {
+				continue
+			}
+			var b []byte
+			if js {
+				b, err = tk.ToDagJson(s.Iss.Priv)
+				if err == nil {
+					if _, derr := token.FromDagJson(b); derr != nil {
+						continue // (tokens DAG-JSON cannot carry back are C07's known findings)
+					}
+				}
+			} else {
+				b, err = tk.ToDagCbor(s.Iss.Priv)
+				if err == nil {
+					if _, derr := token.FromDagCbor(b); derr != nil {
+						continue // (likewise: the main workload judges single tokens)
+					}
+				}
+			}
+			if err != nil {
+				continue
+			}
+			stream.Write(b)
+			want = append(want, gen.Fields(tk))
+			descs = append(descs, describeSpecShort(s))
+		}
+		if len(want) < 2 {
+			continue
+		}
+		dec := cborDec
+		codecName := "dagcbor"
+		if js {
+			dec, codecName = jsonDec, "dagjson"
+		}
+		for vi, rd := range []func(io.Reader) (token.Token, error){
+			func(x io.Reader) (token.Token, error) { return token.DecodeReader(x, dec) },
+			func(x io.Reader) (token.Token, error) {
+				if typ == "dlg" {
+					t, err := delegation.DecodeReader(x, dec)
+					if err != nil {
+						return nil, err
+					}
+					return t, nil
+				}
+				t, err := invocation.DecodeReader(x, dec)
+				if err != nil {
+					return nil, err
+				}
+				return t, nil
+			},
+		} {
+			src := io.Reader(bytes.NewReader(stream.Bytes()))
+			if it%5 == 0 {
+				src = iotest.OneByteReader(src)
+			}
+			for k := range want {
+				t, err := rd(src)
+				w.Eval(1)
+				w.Cover("stream-of-tokens/" + codecName)
+				w.Distinct("stream", it, vi, k)
+				family := []string{"token", typ}[vi]
+				if err != nil || t == nil {
+					w.Violate(fmt.Sprintf("stream-of-tokens/read-fails/%s/%s/position=%s", codecName, family, map[bool]string{true: "first", false: "later"}[k == 0]),
+						fmt.Sprintf("token %d of %d written back to back onto one stream cannot be read with %s.DecodeReader (decoder told not to parse beyond the end): %v", k+1, len(want), family, err),
+						map[string]any{"tokens": descs, "position": k, "codec": codecName, "decoder": family + ".DecodeReader", "error": errStr(err), "stream_hex": mon.Hex(capBytes(stream.Bytes(), 4096))})
+					break
+				}
+				if diff := gen.FieldDiff(want[k], gen.Fields(t)); diff != "" {
+					w.Violate(fmt.Sprintf("stream-of-tokens/field-differs/%s/%s", codecName, family),
+						fmt.Sprintf("token %d of %d read from one stream differs from the token written at that position in %q", k+1, len(want), diff),
+						map[string]any{"tokens": descs, "position": k, "codec": codecName, "field": diff})
+					break
+				}
+			}
 		}
 	}
 }
